@@ -55,6 +55,27 @@ func c12Mailbox(rc *simrt.RunCtx) {
 		st.shutdown()
 		return
 	}
+	if maxV >= 2 && rc.Pick(4, "wl.past-pairing") != 0 {
+		// move past the pairing connection (whose server-side close runs into
+		// the recorded finding): the client ends it, the experiment is done on
+		// the key-based connection that follows
+		time.Sleep(500 * time.Millisecond)
+		ci.conn.Close()
+		var c2, s2 *instance
+		for deadline := rc.Now() + 3*time.Minute; rc.Now() < deadline; {
+			time.Sleep(100 * time.Millisecond)
+			c2, s2 = st.C.current(), st.S.current()
+			if c2 != nil && s2 != nil && c2.k > ci.k && s2.k > si.k {
+				break
+			}
+		}
+		if c2 == nil || s2 == nil || c2.k == ci.k || s2.k == si.k {
+			rc.Probe("c12.mb-no-second-connection")
+			st.shutdown()
+			return
+		}
+		ci, si = c2, s2
+	}
 	time.Sleep(time.Duration(rc.Pick(3000, "wl.close-at")) * time.Millisecond)
 	tClose := rc.Now()
 	type res struct {
